@@ -307,6 +307,30 @@ func c19HistOps() []c19HistOp {
 		_, err := sh.paths[0].Query(ctx, sh.doc, sqlexec.WithSilent())
 		return "cancelled " + classify(err)
 	}})
+	ops = append(ops, c19HistOp{"query-without-WithTZ", func(sh *c19Shared) string {
+		ctx := context.Background()
+		if z := zoneOf(sh.zone); z != nil {
+			ctx = types.ContextWithTZ(ctx, z)
+		}
+		items, err := sh.paths[0].Query(ctx, sh.doc, sqlexec.WithVars(sh.vars))
+		if err != nil {
+			return "notz " + classify(err)
+		}
+		return "notz " + canonMultiset(items)
+	}})
+	ops = append(ops, c19HistOp{"other-path-failing-after-items", func(sh *c19Shared) string {
+		// another Path whose operands deliver items and then fail (soft and hard): nothing of it may survive
+		// (the last one is lax and suppresses its failure: whatever it leaves behind is still there afterwards)
+		for _, t := range []string{`strict $[*].a == 7`, `$[*] ? (@.double() > 0 && @ == $missing)`, `$[*].double() == 7`} {
+			p, err := path.Parse(t)
+			if err != nil {
+				return "parse " + err.Error()
+			}
+			_, _ = p.Exists(context.Background(), []any{float64(7), "x"}, sqlexec.WithSilent())
+			_, _ = p.Query(context.Background(), []any{float64(7), "x", map[string]any{"a": float64(7)}})
+		}
+		return "planted"
+	}})
 	ops = append(ops, c19HistOp{"query-other-doc", func(sh *c19Shared) string {
 		items, err := sh.paths[0].Query(context.Background(), []any{float64(1), "z"}, sh.opts()...)
 		if err != nil {
@@ -357,9 +381,14 @@ func c19History(c Case, r *Run) *Failure {
 					return &Failure{Sig: "C19/history-changes-result/" + op.name, Expected: "after [" + strings.Join(names, ", ") + "] still: " + base[i], Observed: res}
 				}
 				fp := fingerprint(sh.paths[0])
-				if !seen[fp] {
+				fresh := !seen[fp]
+				if fresh {
 					seen[fp] = true
 					states++
+				}
+				// State kept outside the Path (a package-level cache or pool) does not show in the
+				// fingerprint: every history of <= 2 calls is extended whether or not the Path changed.
+				if fresh || depth < 2 {
 					next = append(next, append(append([]int{}, hist...), i))
 				}
 			}
@@ -529,7 +558,7 @@ func tail(s string, n int) string {
 // ---- run ----
 
 func runC19(r *Run) {
-	r.Rule("(a) stateless schedule exploration under a controlled cooperative scheduler (real goroutines, one runnable at a time; scheduling points = every ctx.Done() poll, i.e. every executed path item, and every lexer token for Parse): every unordered pair of entry points {Query,First,Exists,Match,String} on one shared *Path for each of 28 pool paths (regex, datetime with context zone, keyvalue, variables, nested filters, .**, subscripts, arithmetic, operands yielding an array then a scalar), every pair of pool paths sharing document and variables, triples of a 10-path core, and pairs of concurrent Parse+Query/String at token granularity; depth-first over all schedules with <= B preemptions; oracle: every call returns its solo result and the shared document/variables (incl. hidden slice capacity) are unchanged. (b) explicit-state BFS over call histories on one Path per pool path: state = reflect fingerprint of the Path (private AST fields), 8 operations, every operation in every reached state returns its initial-state result. (c) each pool operation three times on equal, freshly allocated inputs. (d) supplementary: the same bodies free-running under the race detector. non-trivial = schedules with at least one preemption")
+	r.Rule("(a) stateless schedule exploration under a controlled cooperative scheduler (real goroutines, one runnable at a time; scheduling points = every ctx.Done() poll, i.e. every executed path item, and every lexer token for Parse): every unordered pair of entry points {Query,First,Exists,Match,String} on one shared *Path for each of 28 pool paths (regex, datetime with context zone, keyvalue, variables, nested filters, .**, subscripts, arithmetic, operands yielding an array then a scalar), every pair of pool paths sharing document and variables, triples of a 10-path core, and pairs of concurrent Parse+Query/String at token granularity; depth-first over all schedules with <= B preemptions; oracle: every call returns its solo result and the shared document/variables (incl. hidden slice capacity) are unchanged. (b) explicit-state BFS over call histories on one Path per pool path: state = reflect fingerprint of the Path (private AST fields); 10 operations (the five entry points, Value/MarshalBinary, a cancelled silent Query, Query without WithTZ, Query on another document, and calls on other Paths whose operands deliver items and then fail); all histories of <= 2 calls are extended regardless of the fingerprint (state outside the Path), longer ones while the fingerprint is new; every operation after every history returns its initial-state result. (c) each pool operation three times on equal, freshly allocated inputs. (d) supplementary: the same bodies free-running under the race detector. non-trivial = schedules with at least one preemption")
 	B := 2
 	if r.Thorough() {
 		B = 3
